@@ -285,6 +285,8 @@ package dbft
 //@        self.Transactions, self.TransactionHashes, self.MissingTransactions, self.Timestamp, self.Nonce, self.header, self.block, self.preHeader, self.preBlock,
 //@        self.blockProcessed, self.preBlockProcessed, self.BlockIndex, self.PrimaryIndex) && gTimerArms == old(gTimerArms)
 //@ pred txKept() = forallOf(Transaction, t, implies(old(has(self.Transactions, t.Hash())), has(self.Transactions, t.Hash())))
+// C11: an inadmissible or repeated input changes nothing of the above and causes no broadcast.
+//@ pred ignored() = quiet() && gBroadcasts == old(gBroadcasts)
 //@ pred cachePurged() = forall(h, implies(has(self.cache.mail, h), h >= self.BlockIndex))
 //@ bundle UNDECIDED
 //@   requires [C05] @undecided !self.blockProcessed
@@ -668,10 +670,12 @@ package dbft
 //@   use U
 //@   requires tx != nil
 //@   ensures [C05] @quiescent implies(old(self.blockProcessed), quiet() && gBroadcasts == old(gBroadcasts))
+//@   ensures [C11] @notRequested implies(forall(j, 0, old(len(self.MissingTransactions)), old(self.MissingTransactions[j]) != tx.Hash()), ignored())
 //@   ensures [C12] @answers implies(!old(has(self.Transactions, tx.Hash())) && has(self.Transactions, tx.Hash()) && self.ViewNumber == old(self.ViewNumber) && hasAllTx() && notWatchOnly() && !old(self.blockProcessed),
 //@        gBroadcasts > old(gBroadcasts))
 //@ func (*DBFT).OnTimeout
 //@   use U
+//@   ensures [C11] @staleTimeout implies(height != old(self.BlockIndex) || view != old(self.ViewNumber), ignored())
 //@   ensures [C05] @quiescent implies(old(self.blockProcessed), quiet() && gBroadcasts == old(gBroadcasts))
 //@ func (*DBFT).OnNewTransaction
 //@   use U
@@ -679,6 +683,7 @@ package dbft
 //@   ensures [C05] @quiescent implies(old(self.blockProcessed), quiet() && gBroadcasts == old(gBroadcasts))
 //@ func (*DBFT).onTimeout
 //@   use U
+//@   ensures [C11] @staleTimeout implies(height != old(self.BlockIndex) || view != old(self.ViewNumber), ignored())
 //@   ensures [C05] @quiescent implies(old(self.blockProcessed), quiet() && gBroadcasts == old(gBroadcasts))
 //@   at call d.sendChangeView: assert [C16] @noIdleViewChange implies(self.ViewNumber == 0 && self.Config.MaxTimePerBlock != nil && self.MyIndex >= 0 && self.MyIndex != self.PrimaryIndex
 //@        && !force && !self.txSubscriptionOn, len(gPool) != 0)
@@ -688,32 +693,54 @@ package dbft
 //@   use U
 //@   requires msg != nil
 //@   ensures [C05] @quiescent implies(old(self.blockProcessed), quiet() && (gBroadcasts == old(gBroadcasts) || (msg.Type() == RecoveryRequestType && gLastBcast.Type() == RecoveryMessageType)))
+//@   ensures [C11] @badIndex implies(msg.ValidatorIndex() >= old(NN()), ignored() && unchanged(self.LastSeenMessage))
+//@   ensures [C11] @pastHeight implies(msg.ValidatorIndex() < old(NN()) && msg.Payload() != nil && msg.Height() < old(self.BlockIndex), ignored() && unchanged(self.LastSeenMessage))
+//@   ensures [C11] @wrongPrimary implies(msg.ValidatorIndex() < old(NN()) && msg.Payload() != nil && msg.Height() == old(self.BlockIndex) && msg.Type() == PrepareRequestType
+//@        && msg.ViewNumber() == old(self.ViewNumber) && msg.ValidatorIndex() != old(self.PrimaryIndex), ignored())
+//@   ensures [C11] @lowerView implies(msg.ValidatorIndex() < old(NN()) && msg.Payload() != nil && msg.Height() == old(self.BlockIndex)
+//@        && (msg.Type() == PrepareRequestType || msg.Type() == PrepareResponseType) && msg.ViewNumber() < old(self.ViewNumber), ignored())
+//@   ensures [C11] @responseFromPrimary implies(msg.ValidatorIndex() < old(NN()) && msg.Payload() != nil && msg.Height() == old(self.BlockIndex) && msg.Type() == PrepareResponseType
+//@        && msg.ViewNumber() == old(self.ViewNumber) && msg.ValidatorIndex() == old(self.PrimaryIndex), ignored())
+//@   ensures [C11] @preCommitWhileOff implies(msg.ValidatorIndex() < old(NN()) && msg.Payload() != nil && msg.Height() == old(self.BlockIndex) && msg.Type() == PreCommitType
+//@        && msg.ViewNumber() <= old(self.ViewNumber) && !old(amev()), ignored())
+//@   ensures [C11] @repeatedPayload implies(msg.ValidatorIndex() < old(NN()) && msg.Payload() != nil && msg.Height() == old(self.BlockIndex) && msg.ViewNumber() <= old(self.ViewNumber)
+//@        && ((msg.Type() == PrepareRequestType && old(self.PreparationPayloads[msg.ValidatorIndex()]) == msg)
+//@         || (msg.Type() == PrepareResponseType && old(self.PreparationPayloads[msg.ValidatorIndex()]) == msg)
+//@         || (msg.Type() == CommitType && old(self.CommitPayloads[msg.ValidatorIndex()]) == msg)
+//@         || (msg.Type() == PreCommitType && old(self.PreCommitPayloads[msg.ValidatorIndex()]) == msg)), ignored())
+//@   ensures [C11] @repeatedChangeView implies(msg.ValidatorIndex() < old(NN()) && msg.Payload() != nil && msg.Height() == old(self.BlockIndex) && msg.Type() == ChangeViewType
+//@        && old(self.ChangeViewPayloads[msg.ValidatorIndex()]) == msg && !old(self.blockProcessed), quiet())
 //@ pred admitted(msg) = msg != nil && msg.ValidatorIndex() < NN() && msg.Payload() != nil && msg.Height() == self.BlockIndex
 //@ func (*DBFT).onPrepareRequest
 //@   use U
 //@   use UNDECIDED
 //@   requires admitted(msg) && msg.Type() == PrepareRequestType && msg.ViewNumber() <= self.ViewNumber
+//@   ensures [C11] @inadmissible implies(msg.ViewNumber() != old(self.ViewNumber) || msg.ValidatorIndex() != old(self.PrimaryIndex) || old(rsor()), ignored())
 // A7 (honest identity): a proposal carrying this node's own index was made by this node, hence is already stored.
 //@   assume @A7 msg.ValidatorIndex() != self.MyIndex || rsor()
 //@ func (*DBFT).onPrepareResponse
 //@   use U
 //@   use UNDECIDED
 //@   requires admitted(msg) && msg.Type() == PrepareResponseType && msg.ViewNumber() <= self.ViewNumber
+//@   ensures [C11] @inadmissible implies(msg.ViewNumber() != old(self.ViewNumber) || msg.ValidatorIndex() == old(self.PrimaryIndex) || old(self.PreparationPayloads[msg.ValidatorIndex()]) != nil, ignored())
 //@   assume @A7 msg.ValidatorIndex() != self.MyIndex || self.PreparationPayloads[self.MyIndex] != nil
 //@ func (*DBFT).onChangeView
 //@   use U
 //@   use UNDECIDED
 //@   requires admitted(msg) && msg.Type() == ChangeViewType
+//@   ensures [C11] @redeliveredChangeView implies(old(self.ChangeViewPayloads[msg.ValidatorIndex()]) == msg, quiet())
 //@ func (*DBFT).onPreCommit
 //@   use U
 //@   use UNDECIDED
 //@   requires admitted(msg) && msg.Type() == PreCommitType && msg.ViewNumber() <= self.ViewNumber
+//@   ensures [C11] @repeated implies(old(self.PreCommitPayloads[msg.ValidatorIndex()]) != nil, ignored())
 //@   assume @A7 msg.ValidatorIndex() != self.MyIndex || self.PreCommitPayloads[self.MyIndex] != nil
 //@   requires [C07] @enabled amev()
 //@ func (*DBFT).onCommit
 //@   use U
 //@   use UNDECIDED
 //@   requires admitted(msg) && msg.Type() == CommitType && msg.ViewNumber() <= self.ViewNumber
+//@   ensures [C11] @repeated implies(old(self.CommitPayloads[msg.ValidatorIndex()]) != nil, ignored())
 //@   assume @A7 msg.ValidatorIndex() != self.MyIndex || self.CommitPayloads[self.MyIndex] != nil
 //@ func (*DBFT).onRecoveryRequest
 //@   use U
